@@ -43,6 +43,28 @@ fn parse_retry_after(response: &reqwest::Response) -> Option<Duration> {
         .map(Duration::from_secs)
 }
 
+/// Check that a content/encoding key is long enough for the CDN layout.
+///
+/// CDN URLs and cache keys are laid out as `{hex[0..2]}/{hex[2..4]}/{hex}`,
+/// which needs at least two key bytes.
+fn validate_key(key: &[u8]) -> Result<()> {
+    if key.len() < 2 {
+        return Err(ProtocolError::InvalidKey);
+    }
+    Ok(())
+}
+
+/// Check that an archive key is a hex string long enough for the CDN layout.
+///
+/// Archive keys come from CDN configs (remote data) and end up in URLs and
+/// cache file names, so anything but hex digits is rejected.
+fn validate_archive_key(archive_key: &str) -> Result<()> {
+    if archive_key.len() < 4 || !archive_key.bytes().all(|b| b.is_ascii_hexdigit()) {
+        return Err(ProtocolError::InvalidKey);
+    }
+    Ok(())
+}
+
 /// CDN endpoint configuration injected from external source
 #[derive(Debug, Clone)]
 pub struct CdnEndpoint {
@@ -151,8 +173,8 @@ impl CdnClient {
             endpoint.host,
             base_path,
             content_type,
-            &hex_key[..2],
-            &hex_key[2..4],
+            hex_key.get(..2).unwrap_or_default(),
+            hex_key.get(2..4).unwrap_or_default(),
             hex_key
         )
     }
@@ -164,6 +186,7 @@ impl CdnClient {
         content_type: ContentType,
         key: &[u8],
     ) -> Result<Vec<u8>> {
+        validate_key(key)?;
         let hex_key = hex::encode(key);
 
         // Use full CDN path structure for cache key to match actual CDN organization
@@ -224,6 +247,7 @@ impl CdnClient {
         key: &[u8],
         resume_from: Option<u64>,
     ) -> Result<Vec<u8>> {
+        validate_key(key)?;
         let url = Self::build_url(endpoint, content_type, key);
 
         // If no resume point, use regular download
@@ -278,13 +302,24 @@ impl CdnClient {
         offset: u64,
         length: u64,
     ) -> Result<Vec<u8>> {
+        validate_key(key)?;
+        // Last byte of the range; an empty range or one that ends beyond
+        // u64::MAX cannot be expressed in a Range header.
+        let last = length
+            .checked_sub(1)
+            .and_then(|l| offset.checked_add(l))
+            .ok_or_else(|| {
+                ProtocolError::Other(format!(
+                    "Invalid byte range: offset {offset}, length {length}"
+                ))
+            })?;
         let url = Self::build_url(endpoint, content_type, key);
 
         let response = self
             .http_client
             .inner()
             .get(&url)
-            .header("Range", format!("bytes={}-{}", offset, offset + length - 1))
+            .header("Range", format!("bytes={offset}-{last}"))
             .send()
             .await?;
 
@@ -311,6 +346,7 @@ impl CdnClient {
     where
         F: FnMut(u64, u64) + Send,
     {
+        validate_key(key)?;
         let url = Self::build_url(endpoint, content_type, key);
 
         let response = self.http_client.inner().get(&url).send().await?;
@@ -351,6 +387,7 @@ impl CdnClient {
     where
         F: FnMut(u64, u64) + Send,
     {
+        validate_key(key)?;
         let url = Self::build_url(endpoint, content_type, key);
 
         let response = self.http_client.inner().get(&url).send().await?;
@@ -375,6 +412,8 @@ impl CdnClient {
         endpoint: &CdnEndpoint,
         archive_key: &str,
     ) -> Result<Vec<u8>> {
+        validate_archive_key(archive_key)?;
+
         // Build cache key for index file
         // Always use path field for ALL game content
         let cache_key = format!(
@@ -426,6 +465,7 @@ impl CdnClient {
         content_type: ContentType,
         key: &[u8],
     ) -> Result<Option<u64>> {
+        validate_key(key)?;
         let url = Self::build_url(endpoint, content_type, key);
 
         let response = self.http_client.inner().head(&url).send().await?;
@@ -454,6 +494,8 @@ impl CdnClient {
         endpoint: &CdnEndpoint,
         archive_key: &str,
     ) -> Result<Option<u64>> {
+        validate_archive_key(archive_key)?;
+
         let scheme = endpoint.scheme.as_deref().unwrap_or("https");
         let base_path = normalize_cdn_path(&endpoint.path);
         let url = format!(
